@@ -27,7 +27,7 @@ prop(
          "one where all metrics share one label set, two random with label subsets and gaps). Every returned series must be allowed by "
          "a live source of utils.LabelsSource (CanHaveLabel for every label incl. __name__); Template stages also run TemplateCheck on a "
          "synthetic alert naming every label and, for single-branch queries, require that a reported label occurs on no returned series. "
-         "Non-trivial: evaluation succeeded with a non-empty vector AND some live source claims something (FixedLabels or excluded labels).",
+         "Non-trivial: evaluation succeeded with a non-empty vector AND some live source claims something (FixedLabels or excluded labels). alerts/template's problems come from the REAL default check list run in process on ONE parsed alerting-rule entry (harness/pq/pintrun); the sources read from that shared parsed query after the run (alerting and recording rule) must equal those of a fresh analysis, utils.LabelsSource must be idempotent on a parsed query and no check may change it.",
     level_text="Generated-input search (rapid, fixed seeds) against the real PromQL engine as oracle. Says no returned series contradicted "
                "pint's label analysis on N generated (expression, database) pairs; no proof of absence.",
     level_note="Only soundness of 'cannot have' is checked: pint saying a label is possible although it never occurs is allowed. Engine errors "
